@@ -51,8 +51,8 @@ def crash_needs_builtin_value(src):
     import re
     if ("biv", src) in _FMT_CACHE: return _FMT_CACHE[("biv", src)]
     # (a builtin call that does not START its statement stands for a value)
-    stripped = re.sub(r"(?m)^([ \t]*\S[^\n]*?)\b(?:panic|abort)!\((?:[^()\"]|\"(?:\\.|[^\"\\])*\")*\)", lambda m: m.group(1) + "0", src)
-    stripped = re.sub(r"\bfile!\(\)", '"f"', stripped)
+    stripped = re.sub(r"(?m)^([ \t]*\S[^\n]*?)\b(?:panic|abort)!\s*\((?:[^()\"]|\"(?:\\.|[^\"\\])*\")*\)", lambda m: m.group(1) + "0", src)
+    stripped = re.sub(r"\bfile!\s*\(\)", '"f"', stripped)
     res = False
     if stripped != src:
         f = C.run_harness("ir", [("s", stripped)], os.path.join(C.CACHE, "work", "C02", "strip"), jobs=1, timeout=120).get("s", ["missing"])
@@ -64,7 +64,8 @@ def crash_needs_builtin_value(src):
 def crash_is_formatting(src):
     import re, tempfile
     if src in _FMT_CACHE: return _FMT_CACHE[src]
-    stripped = re.sub(r"\b(print|eprint|format|dbg|panic)!\((?:[^()\"]|\"(?:\\.|[^\"\\])*\"|\((?:[^()\"]|\"(?:\\.|[^\"\\])*\")*\))*\)", lambda m: m.group(1) + '!("")', src)
+    # (white space, also a line break, may stand between the `!` and the parenthesis; two levels of nested parentheses)
+    stripped = re.sub(r"\b(print|eprint|format|dbg|panic)!\s*\((?:[^()\"]|\"(?:\\.|[^\"\\])*\"|\((?:[^()\"]|\"(?:\\.|[^\"\\])*\"|\((?:[^()\"]|\"(?:\\.|[^\"\\])*\")*\))*\))*\)", lambda m: m.group(1) + '!("")', src)
     res = False
     if stripped != src:
         f = C.run_harness("ir", [("s", stripped)], os.path.join(C.CACHE, "work", "C02", "strip"), jobs=1, timeout=120).get("s", ["missing"])
